@@ -873,7 +873,14 @@ class Exec(Engine):
 
     # ---------------------------------------------------- contract application
     def apply_contract(self, c, fn, args, kwargs, st, node):
-        fnode = find_function(c.module, c.func)
+        if c.opts.get('signature'):
+            # a function outside the tree (stdlib base class method): parameters are bound positionally by the stated signature
+            fnode = ast.parse('def f(%s): pass' % ', '.join(c.opts['signature'])).body[0]
+        else:
+            try:
+                fnode = find_function(c.module, c.func)
+            except Undecided:
+                fnode = None
         if fnode is None:
             raise Undecided('contract %s: function not found in source' % c.qualname, node)
         closure_vals = {k[len('__closure__'):]: v for k, v in kwargs.items() if k.startswith('__closure__')}
